@@ -771,6 +771,11 @@ class Logical(Predicate, metaclass=abc.ABCMeta):
         for arg in operands:
             Predicate.ensure_is(arg)
 
+    @staticmethod
+    def _factors(operand: 'dsl.Operable') -> 'dsl.Predicate.Factors':
+        """Factors of an operand - none for boolean features that are not predicates (columns, literals, casts)."""
+        return operand.factors if isinstance(operand, Predicate) else Predicate.Factors()
+
 
 class And(Logical, Infix):
     """And operator."""
@@ -779,7 +784,7 @@ class And(Logical, Infix):
 
     @functools.cached_property
     def factors(self: 'And') -> 'dsl.Predicate.Factors':
-        return self.left.factors & self.right.factors
+        return self._factors(self.left) & self._factors(self.right)
 
 
 class Or(Logical, Infix):
@@ -789,7 +794,7 @@ class Or(Logical, Infix):
 
     @functools.cached_property
     def factors(self: 'Or') -> 'dsl.Predicate.Factors':
-        return self.left.factors | self.right.factors
+        return self._factors(self.left) | self._factors(self.right)
 
 
 class Not(Logical, Prefix):
@@ -799,7 +804,7 @@ class Not(Logical, Prefix):
 
     @property
     def factors(self: 'Not') -> 'dsl.Predicate.Factors':
-        return self.operand.factors
+        return self._factors(self.operand)
 
 
 class Comparison(Predicate):
